@@ -421,10 +421,11 @@ def run(ctx, R, tier):
 
     # ---------------------------------------------------------------- R8 (shared with C17-R1/R3)
     from ..report import Rules
+    from ..report import run_shared as _run_shared
     from . import c17
     R17 = Rules("C17")
     try:
-        c17.run(ctx, R17, tier)
+        _run_shared(ctx, c17, R17, tier)
     except AnalysisError as _shared_x:
         # the other property's own anchors are gone on this tree: its check reports that; what it produced before is still shared
         R.note("obligations shared from C17 are incomplete on this tree: %s" % _shared_x)
